@@ -116,7 +116,7 @@ def rand_case(rng, max_o, max_s, max_f, chain=0.25, clade=0.3):
                 c = c2
     case = {"S": S, "O": O, "costs": c}
     if rng.random() < 0.25:   # same input object solved before under other costs (see recon.primed)
-        case["prime"] = R.rand_costs(rng, coherent_only=False)
+        case["prime"] = R.rand_costs(rng, coherent_only=False) if rng.random() < 0.6 else "topology"
     return case
 
 
